@@ -139,6 +139,7 @@ check_c06(ZCase &c, Verdict &v)
   // object at the same address) was before
   const uint64_t n2 = 1 + (c.n * 7 + 3) % std::min<uint64_t>(61, c.n);  // <= n: stays inside the admissible range
   Z<T> reused{mn, static_cast<T>(mn + static_cast<T>(n2 - 1)), c.alpha == 0.0 ? 1.5 : c.alpha * 0.5};
+  const bool huge = c.n > 50000000ULL;  // construction is O(n / 100) for the approximate class: one object only
   // resolve the probes' engine words from this case's CDF
   for (auto &p : c.probes) {
     if (!c.resolved) {
@@ -179,7 +180,7 @@ check_c06(ZCase &c, Verdict &v)
   // 1. consecutive draws from one generator
   for (auto &p : c.probes) judge(z, p, "fresh generator");
   // 2. an object that was sampled with other parameters, then re-assigned
-  {
+  if (!huge) {
     std::vector<uint64_t> w0{c.probes.empty() ? 0x8000000000000000ULL : c.probes[0].word};
     Eng e0{&w0};
     (void)reused(e0);
@@ -499,6 +500,7 @@ run_case_inner(ZCase &c, Verdict &v)
 {
   v.labels.push_back(std::string("class=") + (c.cls ? "approx" : "exact"));
   v.labels.push_back(std::string("type=") + (c.type == 0 ? "u32" : c.type == 1 ? "u64" : c.type == 2 ? "i32" : "i64"));
+  if (c.n >= (1ULL << 28)) v.labels.push_back("n>=2^28");
   if (c.alpha == 0) v.labels.push_back("alpha=0");
   else if (c.alpha > 3) v.labels.push_back("alpha>3");
   else if (std::fabs(c.alpha - 1) < 1e-3) v.labels.push_back("alpha~1");
